@@ -73,6 +73,8 @@ CORPUS = [
     ((16, 12), ["R 2 1", "Z 2 1", "R 2 1"]),
     ((16, 12), ["R 1 1", "COFF", "W 1 1 " + "22" * 16, "CON", "R 1 1"]),
     ((8, 20), ["W %d 1 %s" % (i, ("%02x" % i) * 8) for i in range(10)] + ["R 0 4", "R 4 4", "R 8 2", "F"]),
+    # write-through switched on while block 1 is cached dirty; the cache fills; a write-through of blocks 0-1 evicts the old block 1
+    ((16, 20), ["W 1 1 " + "4d" * 16, "R 3 3", "WT 1", "R 2 3", "W 14 1 " + "f1" * 16, "R 8 2", "W 0 2 " + "7a" * 32, "F", "R 0 2"]),
 ]
 
 
@@ -220,6 +222,7 @@ def run(res, replay=None):
         "POSIX file semantics of pread/pwrite/fsync on the backing file are assumed (the model's disk is a byte function)",
         "the run detection of unix_read_blk64 is modelled block by block; LRU order is not observable in results",
         "error paths (EIO on write-back) are not in the proved model; they are exercised by the fault oracle on the implementation",
+        "write-through mode is part of the proved model (theorem hypothesis WThru = false removed after the repair of unix_write_blk64)",
         "thread interleavings of ext2fs_rw_bitmaps are represented by the proved partition of group ranges; data-race freedom of the C code is not proved",
     ]
     res.cov["partial"] = ["bounce-buffer (O_DIRECT) path, undo-wrapped and test_io channels, discard, readahead: not modelled",
